@@ -221,14 +221,14 @@ def build_call(case):
         ic_idx = case.get('IC')
         IC = {lab(i): sts[ic_idx[i]] for i in range(n)}
         rs = [sts[k] for k in case.get('return_idx', range(len(sts)))]
-        args += [H, J, IC, rs]
+        args += [H, J, _ic_argument(IC, sts, case), rs]
         c.H, c.J, c.IC, c.return_statuses, c.statuses = H, J, IC, rs, sts
         c.node_w, c.edge_w = node_w, edge_w
     elif sim == 'Gillespie_complex_contagion':
         rate, choice, infl, sts, moves = complex_model(case['cmodel'], case['cparams'])
         ic_idx = case.get('IC')
         IC = {lab(i): sts[ic_idx[i]] for i in range(n)}
-        args += [rate, choice, infl, IC, sts]
+        args += [rate, choice, infl, _ic_argument(IC, sts, case), sts]
         c.IC, c.return_statuses, c.statuses, c.moves = IC, sts, sts, moves
     if c.model != 'generic':
         if case.get('rho') is not None:
@@ -253,6 +253,18 @@ def build_call(case):
     c.f = getattr(EoN, sim)
     c.args, c.kw = args, kw
     return c
+
+
+def _ic_argument(IC, sts, case):
+    """the IC mapping handed to the simulator.  'IC[node] returns the status of node': a mapping prepared for a larger population (the
+    whole network while only a component / the unvaccinated part is simulated) has entries for keys that are not nodes of G."""
+    if not case.get('ic_extra'):
+        return IC
+    arg = dict(IC)
+    for k, extra in enumerate(['__not_in_G__', ('ghost', 7), -987654, 'zz_other']):
+        if extra not in arg:
+            arg[extra] = sts[(k + 1) % len(sts)]
+    return arg
 
 
 def random_sim_case(r, sim, nmax=14, tmaxes=None):
@@ -328,6 +340,8 @@ def random_sim_case(r, sim, nmax=14, tmaxes=None):
         case['IC'] = [r.choice([0, 0, 1]) for _ in range(n)]
         if case['cmodel'] == 'sis' and case['tmax'] == 'inf':
             case['tmax'] = case['tmin'] + 4
+    if sim in GENERIC_SIMS and r.random() < 0.25:
+        case['ic_extra'] = True
     if r.random() < 0.25:
         case['sim_kwargs'] = r.choice(['tex', 'pos'])       # keyword arguments for the Simulation_Investigation object (ignored without full data)
     if sim == 'Gillespie_simple_contagion' and case['tmax'] == 'inf':
